@@ -25,6 +25,9 @@ REQUIRED_THEOREMS = [
     "TapkeeVerif.Tsne.bh_neighbours_true",
     "TapkeeVerif.Tsne.vptree_build_inv",
     "TapkeeVerif.Tsne.bh_neighbours_of_build",
+    "TapkeeVerif.Tsne.vptree_build_inv_any_nth",
+    "TapkeeVerif.Tsne.bh_neighbours_of_build_any_nth",
+    "TapkeeVerif.Tsne.vpBuild_is_sortNth",
     "TapkeeVerif.Tsne.bh_neighbours_witness",
     "TapkeeVerif.Tsne.symmetrizeCsr_inbounds",
     "TapkeeVerif.Tsne.symmetrizeCsr_half_sum",
@@ -32,11 +35,13 @@ REQUIRED_THEOREMS = [
     "TapkeeVerif.Tsne.symmetrizeCsr_wellformed",
     "TapkeeVerif.Tsne.symmetrizeCsr_total",
     "TapkeeVerif.Tsne.run_joint_csr",
-    "TapkeeVerif.Tsne.symmetrizeCsr_small_partial",
     "TapkeeVerif.Tsne.gradient_identity",
     "TapkeeVerif.Tsne.exactGradientSpec_apply",
+    "TapkeeVerif.Tsne.bhGradient_inbounds",
+    "TapkeeVerif.Tsne.bh_theta0_eq_exact",
+    "TapkeeVerif.Tsne.bh_small_theta_eq_theta0",
+    "TapkeeVerif.Tsne.bh_theta0_eq_exact_total",
     "TapkeeVerif.Tsne.prune_sound",
-    "TapkeeVerif.Tsne.symmetrizeCsr_small3_partial",
     "TapkeeVerif.Tsne.exactGradient_is_grad_KL",
     "TapkeeVerif.Tsne.exactGradient_directional",
     "TapkeeVerif.Tsne.zeroMean_centres",
